@@ -663,6 +663,21 @@ def check_chooser(ctx, b, group="FRESH", tag="chooser"):
         if nm != fresh_name and isinstance(t, tuple) and t[:1] == ("upd",) and t[2] in ("push", "insert") and isinstance(t[1], tuple) and t[1][:1] == ("acc",) \
                 and t[1][1][:1] == ("call",) and t[1][1][1].endswith("::new") and "each" in key(t[3]) and "$variables" in key(t[3]) and (".name" in key(t[3]) or "'name'" in key(t[3])):
             taken_name = nm
+    if taken_name is None:
+        # the same list built by an iterator chain: `variables.iter().map(|v| v.name..).collect()`
+        from .. import comp as _comp
+        from ..leaves import norm as _norm
+        VARS_ = _norm(P("$variables"))
+        for nm, vals in ev.last_env.items():
+            if nm == fresh_name or not vals:
+                continue
+            try:
+                cv_ = _comp.canon(vals[-1])
+            except Exception:
+                continue
+            if isinstance(cv_, tuple) and cv_[:1] == ("coll",) and len(cv_[1]) == 1 and cv_[1][0][0] == (VARS_,) and len(cv_[1][0][1]) == 1 and not cv_[1][0][1][0][0] \
+                    and cv_[1][0][1][0][1] in (("fieldof", ("at", VARS_), "name"), ("call", "String::as_str", (("fieldof", ("at", VARS_), "name"),))):
+                taken_name = nm
     taken_ids = {i_ for i_, n_ in id_name.items() if n_ == taken_name}
     fresh_ids = {i_ for i_, n_ in id_name.items() if n_ == fresh_name}
     # the while loop re-draws a candidate as long as it is taken or already chosen
@@ -695,10 +710,26 @@ def check_chooser(ctx, b, group="FRESH", tag="chooser"):
             pushes_t = [x for x in walk(t_arm["body"]) if x.get("k") == "MethodCall" and x["method"] == "push"]
             sc_recv = [local_id_of(x["recv"]) for x in walk(m[0]["scrut"]) if x.get("k") == "MethodCall" and x["method"] == "contains"]
             okm = len(pushes_f) == 1 and not pushes_t and bool(sc_recv) and all(r_ in taken_ids for r_ in sc_recv)
+    if not okm:
+        # the same decision written as `if taken.contains(variant) { .. } else { fresh.push(variant); .. }` (or with the test negated)
+        for n_ in walk(b["body"]):
+            if n_.get("k") == "If" and "else" in n_:
+                cc = [x for x in walk(n_["cond"]) if x.get("k") == "MethodCall" and x["method"] == "contains"]
+                if len(cc) != 1 or local_id_of(cc[0]["recv"]) not in taken_ids:
+                    continue
+                neg = strip(n_["cond"]).get("k") == "Unary" and strip(n_["cond"]).get("op") == "Not"
+                yes, no = (n_["else"], n_["then"]) if neg else (n_["then"], n_["else"])       # yes: the prefix is taken
+                p_yes = [x for x in walk(yes) if x.get("k") == "MethodCall" and x["method"] == "push"]
+                p_no = [x for x in walk(no) if x.get("k") == "MethodCall" and x["method"] == "push" and local_id_of(x["recv"]) in fresh_ids]
+                if not p_yes and len(p_no) == 1:
+                    okm = True
     ctx.add(group, tag + ":plain-variant", okm, ctx.site(b), "the undecorated prefix itself is handed out only when the taken names do not contain it")
     # candidates are prefix + number: what is pushed into the result inside the numbered loop
     pushed = [t for vals in ev.bound.values() for t in vals] + [t for vals in ev.last_env.values() for t in vals]
-    ctx.add(group, tag + ":candidate-shape", any(isinstance(c, tuple) and "push_str" in key(c) and "$variant" in key(c) for c in pushed), ctx.site(b),
+    def prefix_number(c):
+        # `format!("{variant}{m}")`: the prefix immediately followed by a counter
+        return any(isinstance(x, tuple) and x[:2] == ("format", "{}{}") and len(x[2]) == 2 and x[2][0] == P("$variant") for x in sym.subterms(c))
+    ctx.add(group, tag + ":candidate-shape", any(isinstance(c, tuple) and (("push_str" in key(c) and "$variant" in key(c)) or prefix_number(c)) for c in pushed), ctx.site(b),
             "every candidate is the prefix followed by a decimal number")
 
 
